@@ -3,7 +3,7 @@
 cases file of the last `./chk check C05` run.  Only needed when the directed cases change."""
 import json, os, sys
 ROOT = os.path.dirname(os.path.dirname(os.path.abspath(__file__)))
-cs = [json.loads(l) for l in open(sys.argv[1] if len(sys.argv) > 1 else os.path.join(ROOT, "work/C05/cases_c05.jsonl"))]
+cs = [c for c in (json.loads(l) for l in open(sys.argv[1] if len(sys.argv) > 1 else os.path.join(ROOT, "work/C05/cases_c05.jsonl"))) if "obs" in c]
 want = {'directed-K1-ties': ('w_K1_ties', [1]), 'directed-K1-null-key': ('w_K1_null_key', [1]), 'directed-K1-null-key-single': ('w_K1_null_key_single', [1]),
         'directed-K2-raw-order-key': ('w_K2_raw_order_key', [2]), 'directed-K3-bool-default': ('w_K3_bool_default', [3]),
         'directed-K6-null-variable-eq': ('w_K6_eq', [6]), 'directed-K6-null-variable-ne': ('w_K6_ne', [6]), 'directed-K7-first-variable-zero': ('w_K7_first_zero', [7])}
@@ -30,6 +30,15 @@ for k, name in fixed:
     out.append("Definition %s : c05case := %s." % (name, c['coq']))
     out.append("Lemma %s_holds : spec_C05 %s (run_C05 %s) = true /\\ known_C05 %s = []." % (name, name, name, name))
     out.append("Proof. vm_compute. split; reflexivity. Qed.")
+    out.append("")
+for k, name in [('directed-nested-exists-skip', 'w_nested_exists_skip'), ('directed-nested-nullable-skip', 'w_nested_nullable_skip'),
+                ('directed-nested-exists-first-skip', 'w_nested_first_skip'), ('directed-nested-two-levels', 'w_nested_two_levels'),
+                ('directed-nested-entity-ref', 'w_nested_entity_ref')]:
+    c = [x for x in cs if x.get('kind') == k][0]
+    out.append("(* %s : %s *)" % (k, c['meta']['query'].replace('"', "'")))
+    out.append("Definition %s : c05case := %s." % (name, c['coq']))
+    out.append("Lemma %s_ok : spec_C05 %s (run_C05 %s) = true /\\ known_C05 %s = [] /\\ wf_C05 %s = [1; 1]." % (name, name, name, name, name))
+    out.append("Proof. vm_compute. repeat split; reflexivity. Qed.")
     out.append("")
 for k, name in [('directed-baseline', 'w_baseline'), ('directed-pages-unique-key', 'w_pages_unique')]:
     c = [x for x in cs if x['kind'] == k][0]
